@@ -255,12 +255,6 @@ Section Spec.
   Let alpha : b64 := if b64_eq (o_alpha o) f_zero then f_0_05 else o_alpha o.
 
   (** the documented statistics of one sample *)
-  Definition small_enough (x : b64) : bool :=
-    match x with
-    | S754_zero _ => true
-    | S754_finite _ m e => Z.pos m * 2 ^ (e + 1074) <=? 2 ^ (1022 + 1074)
-    | _ => false
-    end.
   Definition stats_spec (unit : bytes) (vals : list b64) (m : mstat) : bool :=
     let rv := filter (in_fence (fence vals)) vals in
     beq (m_unit m) unit
@@ -271,7 +265,8 @@ Section Spec.
        | _ =>
            existsb (b64_same (m_min m)) rv && forallb (fun x => negb (b64_lt x (m_min m))) rv
            && existsb (b64_same (m_max m)) rv && forallb (fun x => negb (b64_gt x (m_max m))) rv
-           && (if forallb small_enough rv
+           (* Properties/C17.v C17_min_le_mean_le_max: exactly when no difference overflows *)
+           && (if forallb b64_is_finite rv && mean_no_overflow rv
                then b64_le (m_min m) (m_mean m) && b64_le (m_mean m) (m_max m) else true)
        end.
   Definition is_empty_mstat (m : mstat) : bool :=
